@@ -29,6 +29,12 @@ theorem C04_source_test_status_bool (s : C04.TestStatus) :
     Gen.c04TestStatusBoolSrc.run noExt [tsVal s] = .ok (.bool s.truthy) := by
   cases s <;> rfl
 
+/-- … explicitly (the model's falsy list is a table regenerated from the same source): a test status is
+    false exactly for `failed` and `error`. -/
+theorem C04_source_test_status_bool_explicit (s : C04.TestStatus) :
+    Gen.c04TestStatusBoolSrc.run noExt [tsVal s] = .ok (.bool (decide (s ≠ .failed ∧ s ≠ .error))) := by
+  cases s <;> rfl
+
 /-- `TestSuite.__bool__` is the model's `Suite.bool`, for every list of tests and every explicit
     status (or `None`). -/
 theorem C04_source_test_suite_bool (s : C04.Suite) :
@@ -43,6 +49,25 @@ theorem C04_source_test_suite_bool (s : C04.Suite) :
     simp only [Gen.c04TestSuiteBoolSrc, suiteVal, optTsVal, C04.Suite.bool]
     pylite_eval
     rw [h]
+    intro t
+    obtain ⟨n, st⟩ := t
+    cases st <;> rfl
+
+/-- … explicitly: an explicit status decides (false exactly for `failed`/`error`), otherwise no test may be
+    `failed` or `error`. -/
+theorem C04_source_test_suite_bool_explicit (s : C04.Suite) :
+    Gen.c04TestSuiteBoolSrc.run noExt [suiteVal s] =
+      .ok (.bool (match s.status with
+        | some st => decide (st ≠ .failed ∧ st ≠ .error)
+        | none => s.tests.all fun t => decide (t.status ≠ .failed ∧ t.status ≠ .error))) := by
+  rw [C04_source_test_suite_bool]
+  obtain ⟨tests, status⟩ := s
+  cases status with
+  | some st => cases st <;> rfl
+  | none =>
+    simp only [C04.Suite.bool]
+    congr 2
+    apply List.all_congr rfl
     intro t
     obtain ⟨n, st⟩ := t
     cases st <;> rfl
